@@ -24,7 +24,7 @@ for pid in ids:
 man = dict(
     version=1,
     setup_cmd="./check --setup",
-    hooks=dict(guard="verif", enable="go build -tags verif (the harness module replaces grol.io/grol with /repo)",
+    hooks=dict(guard="verif", enable="go build -tags verif (the harness module replaces grol.io/grol with /repo); the two run-time table hooks of 5c56fdf additionally need -tags verif,verifdyn (only harness/cmd/gendyn is built that way, see e8bfb29)",
                baseline_off_cmd="cd /repo && GOFLAGS=-mod=mod GOPROXY=off go test -vet=off -count=1 ./...",
                source_commits=[l.split()[0] for l in open(os.path.join(ROOT, "MANIFEST.hooks")) if l.strip() and not l.startswith("#")],
                add_only=True),
